@@ -124,6 +124,10 @@ def row_for(kind, mod, n=0):
         return (mod, "ok2", '{"a": %s, "b": %s}' % (t, t), cls_json("mt_gone_module_xyz.sub", "C"), None)
     if kind == "arg_class_removed_2":
         return (mod, "ok2", '{"a": %s, "b": %s}' % (cls_json(mod, "GoneClass"), t), t, None)
+    if kind == "arg_module_removed_name_prefix":
+        # a removed module whose NAME is a string prefix of the live target module's name; sorts (and so decodes) before
+        # the rows of ok1 / ok2
+        return (mod, "P.meth", '{"x": %s}' % cls_json(mod[:-1], "C"), t, None)
     if kind == "nowraps":
         return (mod, "unwrapped", '{"a": %s}' % t, t, None)
     raise ValueError(kind)
@@ -132,7 +136,8 @@ def row_for(kind, mod, n=0):
 DECODABLE = {"valid", "valid2", "valid_method", "renamed_param", "nowraps"}
 KINDS = ["valid", "valid2", "valid_method", "renamed_param", "function_removed", "arg_class_removed", "return_class_removed",
          "yield_class_removed", "class_module_removed", "local_scope", "now_nonfunction", "now_class", "now_settable_property",
-         "class_now_nontype", "class_now_nontype_ret", "class_module_removed_ret", "arg_class_removed_2"]
+         "class_now_nontype", "class_now_nontype_ret", "class_module_removed_ret", "arg_class_removed_2",
+         "arg_module_removed_name_prefix"]
 
 _W = {}
 
@@ -309,8 +314,9 @@ def main(pid, tier, seed, replay=None):
     by_tid = {r["tid"]: r for r in records}
     case_by = {c["tid"]: c for c in cases}
     bad_ref = [r for r in records if r["reference_run_failed"] and "nowraps" not in r["kinds"]]
-    if bad_ref:
-        raise RuntimeError("reference run on decodable rows failed: %r" % bad_ref[0])
+    for r in bad_ref:      # the command died on the rows that DO decode: fatal, whatever the stale rows did
+        run.violation({"clause": "NeverFatal", "cmd": r["cmd"], "crashed": r["crashed"], "has_nowraps": False, "reference_run": True},
+                      {k: case_by[r["tid"]][k] for k in case_by[r["tid"]] if k != "tid"})
     slim = [{k: v for k, v in r.items() if k not in ("stderr", "reference_run_failed")} for r in records]
     verdicts, states, trans, wall = tlc.validate_shards("MTDecodeTrace", None, slim, min_per_shard=100)
     for v in verdicts:
